@@ -243,7 +243,11 @@ class Ctx:
             xm = float(x[m])
             if math.isnan(base) and math.isnan(xm):
                 continue
-            if not abs(xm - base) <= atol + rtol * abs(base):
+            if math.isnan(xm) and not math.isnan(base):
+                # a solver that fails for an image but not for the base case: a class of its own in the key
+                self.agg.add(kf(f"{rel}_{name}_nan"), f"{name} is NaN for a {rel} image but finite for the base case",
+                             case, float("inf"), member=[rel, k], base=base, image=xm)
+            elif not abs(xm - base) <= atol + rtol * abs(base):
                 self.agg.add(kf(f"{rel}_{name}"), f"{name} changes under {rel}", case,
                              abs(xm - base) / abs(base) if base else float("inf"), member=[rel, k], base=base, image=xm)
 
@@ -289,8 +293,12 @@ SCAN = np.exp(np.linspace(-19.9, -0.1, 100))
 
 
 def balance_roots(ctx, gen, E, depth, wtype, speed, wdir, rho, kappa):
-    """number of sign changes of F(z0) = rho_a u*(z0)^2 - |tau(z0)| on a 100-point scan of the solver's
-    interval (e^-20, 1): 'one_root', 'no_root', 'several_roots' or 'not_evaluable' (stress() raised)."""
+    """sign changes of F(z0) = rho_a u*(z0)^2 - |tau(z0)| on a 100-point scan of the solver's interval
+    (e^-20, 1) through the public stress(): 'one_root', 'no_root', 'several_roots' or 'not_evaluable'.
+    stress() itself raises for some roughness lengths far from any solution (the Newton solve inside the tail
+    stress); the roughness solver cannot obtain a value of F there either.  Such points are left out: the sign
+    changes are counted along the evaluable points (a change across a gap counts, which can only turn a case
+    into 'several_roots' or 'not_evaluable', i.e. into a case that is not compared)."""
     n = len(SCAN)
     kw = dict(wind_speed_input_type=wtype)
     tau = np.full(n, np.nan)
@@ -304,14 +312,17 @@ def balance_roots(ctx, gen, E, depth, wtype, speed, wdir, rho, kappa):
                 tau[i] = gen.stress(sp1, da(sp1, [speed]), da(sp1, [wdir]), roughness_length=da(sp1, [z]),
                                     **kw)["stress"].values[0]
             except Exception:  # noqa
-                return "not_evaluable"
+                pass
     ustar = speed * kappa / np.log(10.0 / SCAN) if wtype == "u10" else np.full(n, speed)
     F = rho * ustar ** 2 - tau
-    if not np.all(np.isfinite(F)):
+    ok = np.nonzero(np.isfinite(F) & (F != 0))[0]
+    if len(ok) < 10:
         return "not_evaluable"
-    sign = np.sign(F)
-    sign = sign[sign != 0]
-    changes = int(np.sum(sign[1:] != sign[:-1]))
+    sign = np.sign(F[ok])
+    flips = np.nonzero(sign[1:] != sign[:-1])[0]
+    changes = len(flips)
+    if changes == 1 and ok[flips[0] + 1] != ok[flips[0]] + 1:
+        return "not_evaluable"  # the only sign change lies across a gap of non-evaluable scan points
     return {0: "no_root", 1: "one_root"}.get(changes, "several_roots")
 
 
